@@ -16,6 +16,7 @@ import (
 	dawn "github.com/pgavlin/dawn"
 	"github.com/pgavlin/dawn/diff"
 	"github.com/pgavlin/dawn/label"
+	"github.com/pgavlin/dawn/verif/diffcheck"
 	"go.starlark.net/starlark"
 )
 
@@ -30,6 +31,8 @@ type Event struct {
 	// for Evaluating: the environment keys that differ according to the event's own diff
 	DiffKeys []string `json:"diffkeys,omitempty"`
 	HasDiff  bool     `json:"hasdiff,omitempty"`
+	// Problem is what the reconstruction oracle says about the event's diff ("" = faithful)
+	Problem string `json:"problem,omitempty"`
 }
 
 // Recorder implements dawn.Events.
@@ -70,6 +73,15 @@ func (r *Recorder) TargetEvaluating(l *label.Label, reason string, d diff.ValueD
 	if d != nil {
 		e.HasDiff = true
 		e.DiffKeys = DifferingEnvKeys(d)
+		func() {
+			defer func() {
+				if p := recover(); p != nil {
+					e.Problem = fmt.Sprintf("walking the diff panicked: %v", p)
+				}
+			}()
+			ck := &diffcheck.Checker{}
+			e.Problem = ck.Faithful(d, d.Old(), d.New(), "$")
+		}()
 	}
 	r.add(e)
 }
